@@ -40,10 +40,20 @@ def _trajectory(n, p, r, theta):
     return (r**t) * np.cos(theta * t + ph)
 
 
-def h_pop(B, n=5, p=2, npca=2, use_pca=True, r=0.9, theta=0.8, check_transform=False, flags=None):
+def h_pop(B, n=5, p=2, npca=2, use_pca=True, r=0.9, theta=0.8, check_transform=False, flags=None, real=False, ampl=None):
     """oscillation (witness structure) + arbitrary symbolic perturbation of every entry"""
     E = B.array((n, p), "x", lo=-0.05, hi=0.05)
+    if real:
+        # witness with two REAL eigenvalues (two decaying modes of different amplitude): the coefficient series have different
+        # standard deviations, so the ordering is observable; the symbolic run has no witness there (singular 2x2 system, outside the
+        # inv contract) - its open obligations are compared with the concrete run of the same code
+        t = np.arange(n)[:, None]
+        Xv = 3.0 * (0.9**t) * np.array([[1.0, 0.4]]) + 0.5 * ((-0.6) ** t) * np.array([[-0.3, 1.0]]) + E * 0.1
+        _pop_obligations(B, xr.DataArray(Xv, dims=("time", "x"), coords={"time": list(range(n)), "x": XS[:p]}, name="v_x"), n, p, npca, use_pca, check_transform, flags or {}, real=True)
+        return
     Xv = _trajectory(n, p, r, theta) + E
+    if ampl is not None:
+        Xv = Xv * np.array(ampl)[None, :p]  # same generality (invertible diagonal map); the WITNESS has features of very different amplitude
     X = xr.DataArray(Xv, dims=("time", "x"), coords={"time": list(range(n)), "x": XS[:p]}, name="v_x")
     _pop_obligations(B, X, n, p, npca, use_pca, check_transform, flags or {})
 
@@ -62,7 +72,7 @@ def h_linear(B, n=4, r=1.02, theta=0.7, use_pca=False):
     _pop_obligations(B, X, n, p, 2, use_pca, False, {"center": False}, A_true=A)
 
 
-def _pop_obligations(B, X, n, p, npca, use_pca, check_transform, flags, A_true=None):
+def _pop_obligations(B, X, n, p, npca, use_pca, check_transform, flags, A_true=None, real=False):
     kw = dict(n_modes=npca, use_pca=use_pca, solver="full")
     if use_pca:
         kw["n_pca_modes"] = npca
@@ -95,7 +105,8 @@ def _pop_obligations(B, X, n, p, npca, use_pca, check_transform, flags, A_true=N
     tau = model.data["damping_times"].data
     T = model.data["periods"].data
     B.eq("damping_times * log|lambda| == -1", tau * np.log(np.abs(lam)), -np.ones(k))
-    B.eq("periods * angle(lambda) == 2 pi", T * np.angle(lam), 2 * np.pi * np.ones(k))
+    if not real:
+        B.eq("periods * angle(lambda) == 2 pi", T * np.angle(lam), 2 * np.pi * np.ones(k))
     nrm = model.data["norms"].data
     if k > 1:
         B.ge("modes ordered by descending std of the coefficient series", nrm[:-1], nrm[1:])
@@ -122,6 +133,9 @@ def configs(tier):
     add("POP|n5p2|damped", n=5, p=2)
     add("POP|n5p2|growing", n=5, p=2, r=1.05)
     add("POP|n5p2|growing|center=False", n=5, p=2, r=1.2, flags={"center": False})  # witness with |lambda| > 1: damping time negative
+    add("POP|n5p2|real eigenvalues at the witness|center=False", n=5, p=2, real=True, use_pca=False, flags={"center": False})
+    add("POP|n5p2|no pca|center=False|witness with feature amplitudes 1 and 1e-5", n=5, p=2, use_pca=False, flags={"center": False}, ampl=[1.0, 1e-5])
+    out[-1]["options"]["float_rtol"] = 1e-5  # replay tolerance: condition number of C0 is 1e10
     add("POP|n6p3|pca2", n=6, p=3)
     add("POP|n5p2|no pca", n=5, p=2, use_pca=False)
     add("POP|n5p2|no pca|transform", n=5, p=2, use_pca=False, check_transform=True)
